@@ -100,3 +100,7 @@ def run(ctx, res):
                 res.violation('regression of fixed finding F17: ' + f['what'], w)
     jobs, outs = shapelib.shape_stream(ctx, 3, 200, 6000)
     check(ctx, res, jobs, outs)
+    # ---- EBNF level: lark's compilation of ? * + ~ groups, ! and keep_all_tokens vs an independent desugaring into explicit inlined helper rules
+    import ebnflib
+    ebnflib.check(ctx, res, 33, 500, 10000, big=False)
+    ebnflib.check_maybe(ctx, res, 34, 400, 8000)
